@@ -154,7 +154,30 @@ def run(ctx, rep):
     cac = [f for f in F.crates["compiler"].fns if f.path.startswith("<compiler::ast::callable::Callable") and f.path.endswith("as compiler::ast::Compile>::compile")]
     if cac:
         per_arg = [g for g in F.closures_of(cac[0]) if g.calls_to("compiler::ast::Compile::compile")]
-        rep.floor("C15.parked per-argument closures of Callable::compile", len(per_arg), 1)
+        if not per_arg:
+            # the arguments are compiled in a loop of Callable::compile itself: read the emitted sequence for two arguments and look at what lies
+            # between their codes
+            rows, ex = seqgen.sequences(F, cac[0], [Opaque("self"), Opaque("state")],
+                                        extra_models=dict(REV_MODELS, **{NEXT: scripted_next([Opaque("lhs"), Opaque("rhs")])}))
+            seqs = [r["seq"] for r in rows if r.get("seq") is not None]
+            judged, bad = 0, []
+            for sq in seqs:
+                pl, pr = positions(sq, "lhs"), positions(sq, "rhs")
+                if len(pl) != 1 or len(pr) != 1 or pl[0] > pr[0]:
+                    continue
+                judged += 1
+                seg = sq[pl[0] + 1:pr[0]]
+                if not seg or not all(x[0] == "ins" and x[1] in PARK for x in seg) or 1 + sum(PARK[x[1]] for x in seg) != 0:
+                    bad.append(show(sq))
+                # ... and the last argument is parked too, before the call itself
+                tail = sq[pr[0] + 1:pr[0] + 2]
+                if not tail or not (tail[0][0] == "ins" and tail[0][1] in PARK):
+                    bad.append(show(sq))
+            rep.floor("C15.parked call sequences with two arguments read", judged, 1)
+            rep.ob("C15.parked", "`f(a, b)`: the value of each argument is parked in a register before the code of the next argument runs",
+                   "violated" if bad else ("undecided" if (ex or not judged) else "ok"), "emitted: %s" % ([bad[0]] if bad else [show(sq) for sq in seqs][:1]), cac[0].span,
+                   fn=cac[0].path, key="C15.parked|call-arguments")
+            n += 1
         for g in per_arg:
             rows, ex = seqgen.sequences(F, g, [absint.Closure(g.path, [Opaque("cap%d" % i) for i in range(4)]), Opaque("x")])
             seqs = sorted({tuple(r["value"].items) for r in rows if r["kind"] == "return" and isinstance(r["value"], seqgen.Seq)}, key=show)
